@@ -71,6 +71,9 @@ FnOthers == {X, Y, Z, Anon, a, b, Atom("a, b"), Atom("a? b"), Atom("a,!"), Atom(
              Flt(3, -2), IntT(36), IntT(1), Cx("f", <<a>>), Lst(<<a>>), EmptyList}
            \cup FnTerms
 
+NearFns  == {Fn("add", <<Flt(1, 52), Flt(1, 0)>>), Fn("subtract", <<Flt(1, 52), Flt(1, 0)>>), Fn("add", <<Flt(1, 52), Flt(0, 0)>>),
+             Fn("multiply", <<FltA(1, 52, 1), Flt(1, 0)>>), Fn("add", <<Flt(1, 51), Flt(1, 51), IntT(1)>>)}
+NearVals == {Flt(1, 52), FltA(1, 52, 1), FltA(1, 52, -1), IntE(1, 52), IntA(1, 52, 1)}
 P(x, y, z) == <<x, y, z>>
 (* ---- arithmetic (C12): argument lists of 1-4 exact numbers ---- *)
 NumsT == {IntT(0), IntT(1), IntT(-3), IntT(7), IntT(2), IntE(1, 62), IntE(-1, 63), IntE(1, 40),
@@ -156,7 +159,11 @@ Inits ==
            {InitU(<<<<s, t>>>>, p) : s \in FnTerms, t \in FnOthers, p \in PriorFn} \cup
            {InitU(<<<<t, s>>>>, p) : s \in FnTerms, t \in FnOthers, p \in PriorFn} \cup
            {InitU(<<<<Cx("f", <<s>>), Cx("f", <<t>>)>>>>, P(NoT, NoT, NoT)) : s \in FnTerms, t \in FnOthers} \cup
-           {InitU(<<<<Lst(<<t, a>>), Lst(<<s, a>>)>>>>, P(NoT, NoT, NoT)) : s \in FnTerms, t \in FnOthers}
+           {InitU(<<<<Lst(<<t, a>>), Lst(<<s, a>>)>>>>, P(NoT, NoT, NoT)) : s \in FnTerms, t \in FnOthers} \cup
+           (* a float value next to the other operand: 2^52 + 1 and 2^52 - 1 (exact f64 sums) against 2^52, against themselves, *)
+           (* against each other, against a variable bound to either; function against function                                  *)
+           {InitU(<<<<s, t>>>>, p) : s \in NearFns, t \in NearVals \cup NearFns \cup {X}, p \in {P(NoT, NoT, NoT), P(Flt(1, 52), NoT, NoT), P(FltA(1, 52, 1), NoT, NoT)}} \cup
+           {InitU(<<<<t, s>>>>, P(NoT, NoT, NoT)) : s \in NearFns, t \in NearVals}
       [] Slice = "arith" -> ArithInits
       [] Slice = "laws" ->
            {InitU(<<<<s, t>>>>, p) : s \in LawTerms, t \in LawTerms, p \in PriorLaws}
